@@ -201,8 +201,8 @@ func run(c *mon.Case) {
 
 func main() {
 	mon.Main(mon.Spec{
-		Prop: "C15",
-		Rule: "case = initial layout of 0..6 byte blocks (adjacent, overlapping, unsorted) + history of 40 constant stores/loads/missing queries over a 48-byte window; non-trivial = overlapping layout (must be rejected) or a history with a successful load that reads a stored value in part or spans >=2 stored values/blocks",
+		Prop:        "C15",
+		Rule:        "case = initial layout of 0..6 byte blocks (adjacent, overlapping, unsorted) + history of 40 constant stores/loads/missing queries over a 48-byte window; non-trivial = overlapping layout (must be rejected) or a history with a successful load that reads a stored value in part or spans >=2 stored values/blocks",
 		Explanation: "oracle: shadow byte map; NewBytes must fail iff two blocks share an address; the caller's block slices are scrambled after construction and every constant handed in (incl. expr.Zero/One and constants wider or narrower than the write) is re-printed at the end; loads/missing/blocks compared after every operation",
 		Assumptions: []string{"refir reference evaluator", "no empty initial blocks, no wrapping ranges"},
 		Cases: func(t string) int {
